@@ -252,6 +252,13 @@ def run_case(case):
         form = 'callable'
         key = lambda row: '%s/%04d' % (row['t'], row['k'])                 # noqa: E731
         tkey = lambda r: ('%s/%04d' % (r['t'], r['k']),)                   # noqa: E731
+        if boot.rng(case['seed'], 'C12', 'callable_form', case['idx']).random() < 0.5:
+            # the callable returns the text itself: keys that are proper prefixes of other keys which go on with a
+            # space, '-', '!' or a digit (characters below and among the hex digits of the row-number suffix)
+            rows = [{'id': i, 't': rng.choice(TEXT + ['a-', 'a 1', 'a1', 'a10', 'ab-2', 'ab 1']), 'k': 0} for i in range(n)]
+            form = 'callable_text_itself'
+            key = lambda row: row['t']                                     # noqa: E731
+            tkey = lambda r: (r['t'],)                                     # noqa: E731
     if not callable(key) and c != 'nan_present' and rows and 'k' in rows[0] and \
             boot.rng(case['seed'], 'C12', 'oddname', c, case['idx']).random() < 0.25:
         # the key field has a name that is not an identifier ('unit price', 'net-weight', 'growth %'): a name like any other
